@@ -20,6 +20,7 @@
 package main
 
 import (
+	"context"
 	"encoding/json"
 	"fmt"
 	"os"
@@ -657,7 +658,9 @@ func main() {
 	// ---- race pass (complement, see DESIGN §3.6) ----
 	raceRuns, raceOut := racePass(self+".race", r.Thorough())
 	r.Set("race_runs", raceRuns)
-	if raceOut != "" {
+	if strings.HasPrefix(raceOut, "NO-TERMINATION") {
+		r.Violation("free-running-pass:no-termination", raceOut, nil)
+	} else if raceOut != "" {
 		r.Violation("data-race:"+raceSite(raceOut), raceOut, map[string]any{"report": raceOut})
 	}
 	r.Assume("scheduling points at Mutex/WaitGroup/channel operations, goroutine spawn and harness callbacks are sufficient; unsynchronised accesses are the business of the free-running -race pass")
@@ -707,9 +710,21 @@ func replay(rp string) {
 }
 
 func racePass(bin string, thorough bool) (int, string) {
-	cmd := exec.Command(bin)
+	// The free-running companion normally finishes in 10-20 s (quick) / ~2 min (thorough). A
+	// deadlock in the code under test would make it wait forever, so it runs under a generous
+	// limit (>= 30x its normal time); running into the limit is reported as non-termination.
+	limit := 10 * time.Minute
+	if thorough {
+		limit = 60 * time.Minute
+	}
+	ctx, cancel := context.WithTimeout(context.Background(), limit)
+	defer cancel()
+	cmd := exec.CommandContext(ctx, bin)
 	cmd.Env = append(os.Environ(), "GORACE=halt_on_error=0")
 	out, err := cmd.CombinedOutput()
+	if ctx.Err() != nil {
+		return 0, "NO-TERMINATION: the free-running companion did not finish within " + limit.String() + " (a deadlock or livelock in the cache hammer, ComputePatches or a scan)"
+	}
 	runs := 0
 	for _, l := range strings.Split(string(out), "\n") {
 		if strings.HasPrefix(l, "race-runs=") {
